@@ -784,7 +784,8 @@ mod x86_64 {
         #[inline]
         pub unsafe fn write(frame: PhysFrame, flags: ApicBaseFlags) {
             let (_, old_flags) = Self::read_raw();
-            let reserved = old_flags & !(ApicBaseFlags::all().bits());
+            // the base address field (bits 12 - 51) is replaced by `frame`, it is not a reserved field
+            let reserved = old_flags & !(ApicBaseFlags::all().bits()) & !0x000f_ffff_ffff_f000;
             let new_flags = reserved | flags.bits();
 
             unsafe {
